@@ -296,8 +296,10 @@ PROPS = {
             "thorough": lambda s: gen.fam_data(s, 400, big=True) + gen.fam_cancel(s, 0) + gen.fam_indep(s, 0) + gen.fam_life(s, 12) + gen.fam_gates(s, 4)},
     "C06": {"level": "model_checking", "model_replay": (30, 300), "runner": run_c06, "hang": True,
             "also": ["C09_SrvStreamLevel", "C09_CliStreamLevel", "C09_BoundedBuffer", "C05_CreditConserved", "C05_CreditExact"],
-            "quick": lambda s: gen.fam_data(s, 48) + gen.fam_flow(s, 16) + [x for x in gen.fam_hostile_srv(s) + gen.fam_hostile_cli(s) if "overrun" in x["name"]],
-            "thorough": lambda s: gen.fam_data(s, 600, big=True) + gen.fam_flow(s, 200) + gen.fam_hostile_srv(s) + gen.fam_hostile_cli(s)},
+            "quick": lambda s: gen.fam_data(s, 48) + gen.fam_flow(s, 16) + [x for x in gen.fam_hostile_srv(s) + gen.fam_hostile_cli(s) if "overrun" in x["name"]]
+                               # request data waiting, unread, in the receiver when the RPC ends there: discarded, never credited
+                               + [x for x in gen.fam_inflight(s, fcs=("fc",)) if "buffered" in x["name"]],
+            "thorough": lambda s: gen.fam_data(s, 600, big=True) + gen.fam_flow(s, 200) + gen.fam_hostile_srv(s) + gen.fam_hostile_cli(s) + gen.fam_inflight(s)},
     "C04": {"level": "model_checking", "model_replay": (40, 400), "mc": {"quick": ["MC_err_close", "MC_err_fail"], "thorough": ["MC_err_close", "MC_err_fail", "MCT_one_close", "MCT_err_all2", "Live_one", "Live_err_cancel"]}, "also": ["C16_NoSuccessOnWrongCount"], "hang": True,
             "quick": lambda s: gen.fam_life(s, 5),
             "thorough": lambda s: gen.fam_life(s, 0) + gen.fam_gates(s, 0, faults=("close",))},
@@ -305,15 +307,16 @@ PROPS = {
             "quick": lambda s: gen.fam_cancel(s, 5) + gen.fam_inflight(s) + gen.fam_gates(s, 4, gates=["cli.alloc", "cli.watch.fired", "cli.cancel.finished", "cli.cancel.emit", "cli.frame.dispatch", "srv.frame.dispatch", "srv.finish.cancelled", "srv.close.emit", "car.sent.c2s.cancel"], faults=("cancel@park", "cancel")),
             "thorough": lambda s: gen.fam_cancel(s, 0) + gen.fam_inflight(s) + gen.fam_gates(s, 0, faults=("cancel",))},
     "C03": {"level": "model_checking", "hang": True, "mc": {"quick": ["MC_two_stepped"], "thorough": ["MC_two_stepped", "MCT_two_stepped_all"]},
-            "quick": lambda s: gen.fam_indep(s, 8) + gen.fam_shutdown(s, 3, policies=("eager",))
+            "quick": lambda s: gen.fam_indep(s, 8) + gen.fam_flow(s, 16, caps=(1, 2, 1, 4)) + gen.fam_shutdown(s, 3, policies=("eager",))
                                + gen.fam_gates(s, 4, gates=["cli.alloc", "cli.tx.lock", "car.sent.c2s.new", "srv.reject.emit"], faults=("cancel@park", "cancel")),
             "thorough": lambda s: sum((gen.fam_indep(s + i, 0) for i in range(8)), []) + gen.fam_shutdown(s, 0) + gen.fam_gates(s, 0, faults=("cancel",))},
     "C14": {"level": "model_checking", "snap": True, "hang": True, "runner": run_c17,
             "also": ["C12_RegistryMatches", "C12_Callbacks"],
             "quick": lambda s: gen.fam_life(s, 8, policies=("lazy", "slowcli"), causes=("close", "srvgone", "carfail", "stop"), fcs=("fc",))
                                + gen.fam_life(s, 2, policies=("eager",), fcs=("nofc",))
-                               + gen.fam_cancel(s, 3, policies=("lazy", "slowcli")) + gen.fam_indep(s, 3, policies=("random",)),
-            "thorough": lambda s: gen.fam_life(s, 0) + gen.fam_cancel(s, 0) + gen.fam_indep(s, 0) + gen.fam_gates(s, 4)},
+                               + gen.fam_cancel(s, 3, policies=("lazy", "slowcli")) + gen.fam_indep(s, 3, policies=("random",))
+                               + [x for x in gen.fam_misuse(s) if "unencodable" in x["name"]],   # calls that fail before anything of them is sent
+            "thorough": lambda s: gen.fam_life(s, 0) + gen.fam_cancel(s, 0) + gen.fam_indep(s, 0) + gen.fam_gates(s, 4) + gen.fam_misuse(s)},
     "C02": {"level": "model_checking", "also": ["C16_NoSuccessOnWrongCount"], "race_extra": lambda s: gen.fam_free(s, 40),
             # the design with header / trailer values: every interleaving with a Close (quick) and with a cancel (thorough, 12 M states)
             "mc": {"quick": ["MC_one", "MC_meta2_close"], "thorough": ["MC_one", "MC_meta2_close", "MC_meta_cancel", "MC_err_fail"]}, "model_replay": (28, 280),
@@ -322,7 +325,7 @@ PROPS = {
     "C16": {"level": "model_checking",
             "quick": lambda s: gen.fam_shape(s) + gen.fam_misuse(s),
             "thorough": lambda s: gen.fam_shape(s) + gen.fam_misuse(s) + gen.fam_hostile_srv(s) + gen.fam_hostile_cli(s)},
-    "C11": {"level": "model_checking", "hang": True,
+    "C11": {"level": "model_checking", "hang": True, "runner": run_c17,   # + several tunnels negotiating differently on one handler
             "quick": lambda s: gen.fam_neg(s),
             "thorough": lambda s: gen.fam_neg(s) + gen.fam_data(s, 120)},
     "C08": {"level": "model_checking", "hang": True, "also": ["C09_SrvTunnelLevel"],
